@@ -62,6 +62,7 @@ type ep struct {
 	gotConn  int
 	gotStrm  map[uint32]int
 	maxFrame int
+	maxFrameEver int // largest SETTINGS_MAX_FRAME_SIZE this endpoint ever announced
 	checked  int
 	// as sender
 	sentConn int
@@ -83,7 +84,7 @@ type ep struct {
 }
 
 func newEp(name string, c *simnet.Conn) *ep {
-	e := &ep{name: name, conn: c, iws: 65535, maxFrame: 16384, done: make(chan struct{}), pendingTable: -1,
+	e := &ep{name: name, conn: c, iws: 65535, maxFrame: 16384, maxFrameEver: 16384, done: make(chan struct{}), pendingTable: -1,
 		wuStream: map[uint32]int{}, gotStrm: map[uint32]int{}, sentStrm: map[uint32]int{}, backStrm: map[uint32]int{},
 		sentEl: map[uint32][]string{}, gotEl: map[uint32][]string{}}
 	e.w = http2.NewFramer(c, nil)
@@ -254,6 +255,7 @@ func (e *ep) sendSettings(ss ...http2.Setting) {
 			e.iws = int(s.Val)
 		case http2.SettingMaxFrameSize:
 			e.maxFrame = int(s.Val)
+			e.maxFrameEver = max(e.maxFrameEver, e.maxFrame)
 		case http2.SettingHeaderTableSize:
 			e.dec.SetAllowedMaxDynamicTableSize(s.Val)
 		}
@@ -391,6 +393,10 @@ func (y *sys) oracle(ev string) bool {
 		for _, f := range frames {
 			if f.length > e.maxFrame && y.focus == "C09" {
 				sig := "frame-exceeds-max-frame-size"
+				if f.length <= e.maxFrameEver {
+					// the frame was cut to the limit in force when the relay accepted it and queued; the receiver lowered its limit since
+					sig = "frame-exceeds-max-frame-size/queued-before-the-limit-was-lowered"
+				}
 				x.Failf(sig, "after %s: %s received a %v frame with %d payload octets, its SETTINGS_MAX_FRAME_SIZE is %d", ev, e.name, f.typ, f.length, e.maxFrame)
 				return false
 			}
@@ -967,7 +973,7 @@ func frameSizeScenario(x *explore.X, depth int) {
 		}
 		for _, n := range []int{16384, 16385, 32768, 40000} {
 			n := n
-			if n <= a.maxFrame { // the sender respects what the relay accepts (the relay never announces more than the default)
+			if n <= b.maxFrame { // the sender respects the limit it was told: the receiver's SETTINGS, which the relay passes on
 				evs = append(evs, event{fmt.Sprintf("A:DATA(s1,%d)", n), func() { a.sendData(1, bytes.Repeat([]byte{'d'}, n), 0, false) }})
 			}
 		}
